@@ -500,3 +500,42 @@ Proof.
 Qed.
 
 End Records.
+
+(* ------------------------------------------------------------------------------------------------ *)
+(* --multi-timestamp on concrete records                                                               *)
+
+Lemma expand_same_fields : forall now r, map strip_meta (expand_impl now r) = map strip_meta (expand_spec r).
+Proof.
+  intros now r. unfold expand_impl, expand_spec. destruct (filter cf_dt (c_fields r)) as [|d t]; [reflexivity|].
+  rewrite !map_map. reflexivity.
+Qed.
+
+Lemma expand_keeps_fields : forall now r r' f,
+  In r' (expand_impl now r) -> In f (c_fields r) -> is_ts_name (cf_name f) = false -> In f (c_fields r').
+Proof.
+  intros now r r' f Hr Hf Hn. unfold expand_impl in Hr.
+  destruct (filter cf_dt (c_fields r)) as [|d t].
+  - destruct Hr as [<-|[]]. assumption.
+  - apply in_map_iff in Hr. destruct Hr as [g [<- _]]. simpl. right. right.
+    apply filter_In. split; [assumption|now rewrite Hn].
+Qed.
+
+Lemma expand_no_datetime : forall now r, filter cf_dt (c_fields r) = [] -> expand_impl now r = [r].
+Proof. intros now r H. unfold expand_impl. now rewrite H. Qed.
+
+Lemma expand_count : forall now r,
+  List.length (expand_impl now r) = Nat.max 1 (List.length (filter cf_dt (c_fields r))).
+Proof.
+  intros now r. unfold expand_impl. destruct (filter cf_dt (c_fields r)) as [|d t] eqn:E; [reflexivity|].
+  rewrite map_length. simpl. reflexivity.
+Qed.
+
+Lemma expand_meta_lost : forall now r r', filter cf_dt (c_fields r) <> [] ->
+  In r' (expand_impl now r) -> c_meta r' = fresh_meta now.
+Proof.
+  intros now r r' H Hr. unfold expand_impl in Hr. destruct (filter cf_dt (c_fields r)) as [|d t]; [congruence|].
+  apply in_map_iff in Hr. destruct Hr as [g [<- _]]. reflexivity.
+Qed.
+
+Lemma expand_partial : forall now r, filter cf_dt (c_fields r) = [] -> expand_impl now r = expand_spec r.
+Proof. intros now r H. unfold expand_impl, expand_spec. now rewrite H. Qed.
